@@ -29,11 +29,42 @@ def run(ctx):
     ctx.rule('R-C02d', 'request and report tables agree in every method: each wanted band requests its primary event; reported bands '
                        'are IN<-{IN,ERR,HUP}, OUT<-{OUT,ERR,HUP}, ERR<-{ERR,HUP}', floor=12)
     ctx.rule('R-C02e', 'zero timeout while tasks are pending (shared with C06)', floor=1)
+    ctx.rule('R-C02f', 'poll-array compaction keeps the moved descriptor\'s request: the vacated slot receives the whole last entry '
+                       '(or at least its fd and events), the moved descriptor\'s index and back-pointer are updated', floor=3)
+    ctx.section(compaction)
     ctx.section(notify)
     ctx.section(wanted)
     ctx.section(flush)
     ctx.section(tables)
     ctx.section(zero)
+
+
+def compaction(ctx):
+    prog = ctx.prog
+    done = set()
+    for t, slots in sorted(prog.method_tables().items()):
+        if not (slots.get('register_fd') and not slots.get('unregister_fd')):
+            continue
+        f = prog.resolve(*slots['notify_fd'])
+        if f.q in done:
+            continue
+        done.add(f.q)
+        # the removal arm: stores into pfds[<fd's index>] whose value comes from the last occupied entry
+        st = [e for e in f.events() if e['ev'] == 'store' and 'pfds[' in canon(e['lhs']) and 'u.index]' in canon(e['lhs'])
+              and ('num_regd_fds]' in canon(e.get('rhs', {})) or 'last' in canon(e.get('rhs', {})) or canon(e.get('rhs', {})) == '0')]
+        whole = [e for e in st if canon(e['lhs']).endswith(']') and canon(e['rhs']).endswith('num_regd_fds]') and 'pfds[' in canon(e['rhs'])]
+        fields = {canon(e['lhs']).rsplit('.', 1)[-1] for e in st if not canon(e['lhs']).endswith(']')}
+        ok = bool(whole) or {'fd', 'events'} <= fields
+        ctx.ob('R-C02f', '%s:moved-entry-complete' % f.name, ok, loc=(st or [{'loc': f.loc}])[0]['loc'],
+               detail='swap-remove of a pollfd slot copies %s' % ('the whole last entry' if whole else 'only the fields %s of the last entry (fd and events are needed: '
+                      'otherwise the moved descriptor is polled with the removed descriptor\'s event mask)' % sorted(fields)), fn=f.q)
+        back = [e for e in f.events() if e['ev'] == 'store' and canon(e['lhs']).endswith('->u.index') and canon(e.get('rhs', {})).endswith('->u.index')]
+        ptr = [e for e in f.events() if e['ev'] == 'store' and 'fds[' in canon(e['lhs']) and 'pfds[' not in canon(e['lhs']) and 'u.index]' in canon(e['lhs'])
+               and canon(e.get('rhs', {})) not in ('NULL', '0')]
+        ctx.ob('R-C02f', '%s:moved-descriptor-index' % f.name, bool(back), loc=f.loc,
+               detail='the moved descriptor is given the vacated index', fn=f.q)
+        ctx.ob('R-C02f', '%s:moved-descriptor-pointer' % f.name, len(ptr) >= 2, loc=f.loc,
+               detail='the descriptor pointer array is updated for both the new and the moved slot', fn=f.q)
 
 
 def notify(ctx):
